@@ -90,6 +90,18 @@ func (g *Gen) Bal() *big.Int {
 	}
 }
 
+// Index returns a participant/asset index: mostly small, sometimes using the high byte.
+func (g *Gen) Index() channel.Index {
+	switch g.R.Intn(6) {
+	case 0:
+		return channel.Index(256 + g.R.Intn(65280))
+	case 1:
+		return channel.Index(255 + g.R.Intn(3))
+	default:
+		return channel.Index(g.R.Intn(5))
+	}
+}
+
 func (g *Gen) Asset() channel.Asset { return &simchannel.Asset{ID: g.R.Uint64() >> uint(g.R.Intn(64))} }
 
 func (g *Gen) SubAlloc(nAssets int) channel.SubAlloc {
@@ -106,7 +118,7 @@ func (g *Gen) SubAlloc(nAssets int) channel.SubAlloc {
 	default:
 		im = make([]channel.Index, 1+g.R.Intn(4))
 		for i := range im {
-			im[i] = channel.Index(g.R.Intn(5))
+			im[i] = g.Index()
 		}
 	}
 	if g.R.Intn(2) == 0 {
